@@ -372,7 +372,8 @@ func simC13v4(c *sim.Ctx) {
 		}
 		if f.whole || (!f.more && f.off == 0) {
 			// by definition not a fragment (MF clear, offset 0)
-			if out != ip || err != nil {
+			// "pass through unchanged": the same layer, or one that says the same
+			if err != nil || out == nil || (out != ip && !(out.Id == ip.Id && out.Length == ip.Length && out.IHL == ip.IHL && out.Flags == ip.Flags && out.FragOffset == ip.FragOffset && out.Protocol == ip.Protocol && out.TTL == ip.TTL && out.SrcIP.Equal(ip.SrcIP) && out.DstIP.Equal(ip.DstIP) && bytes.Equal(out.Payload, ip.Payload))) {
 				c.Fail("passthrough", "changed", "DefragIPv4", "unfragmented packet (DF=%v) not returned as is: out==in %v err=%v", f.df, out == ip, err)
 			}
 			c.Probe("unfragmented_passthrough")
